@@ -52,6 +52,9 @@ pub enum Behaviour {
     /// `consByteString 256 #""`: wraps under the pre-Chang builtin semantics of Plutus V1/V2 and
     /// fails afterwards, so the verdict depends on the protocol version handed to the evaluator.
     ConsWrap,
+    /// Terminates normally with `False`: a Plutus V1 / V2 script succeeds whenever it does not
+    /// error, a Plutus V3 script must return unit, so this one fails under V3 only.
+    ReturnFalse,
 }
 
 #[derive(Clone, Debug, Serialize, Deserialize, PartialEq)]
@@ -74,6 +77,10 @@ pub struct ScriptUse {
     /// Script delivered through a reference input instead of the witness set.
     pub by_reference: bool,
     pub unique: u32,
+    /// With `by_reference`: the output carrying the script is one the transaction SPENDS (a
+    /// key-locked input) instead of one it only references — equally valid for the ledger.
+    #[serde(default)]
+    pub on_spent_input: bool,
     /// For `Purpose::Cert`: which certificate the script authorises (see `script_certificate`);
     /// for `Purpose::Vote`: odd = the script is a committee member, even = a DRep.
     #[serde(default)]
@@ -169,6 +176,7 @@ fn script_source(s: &ScriptUse) -> String {
     let body = match &s.behaviour {
         Behaviour::Ok => unit.to_string(),
         Behaviour::Fail => "(error)".to_string(),
+        Behaviour::ReturnFalse => "(con bool False)".to_string(),
         Behaviour::Burn(k) => format!(
             "[ [ (lam s [ s s ]) (lam self (lam i (force [ [ [ (force (builtin ifThenElse)) [ [ (builtin lessThanEqualsInteger) i ] (con integer 0) ] ] (delay {unit}) ] (delay [ [ self self ] [ [ (builtin subtractInteger) i ] (con integer 1) ] ]) ]))) ] (con integer {k}) ]"
         ),
@@ -307,7 +315,11 @@ pub fn assemble(sc: &Scenario) -> Result<Assembled, String> {
         let b = &built[i];
         if s.by_reference {
             let r = fresh_input(&mut rng);
-            reference_inputs.push(r.clone());
+            if s.on_spent_input {
+                inputs.push(r.clone());
+            } else {
+                reference_inputs.push(r.clone());
+            }
             utxos.push(ResolvedInput {
                 input: r,
                 output: output(key_address(&mut rng), 2_000_000, None, Some((s.version, b.cbor.clone()))),
@@ -810,7 +822,12 @@ fn reference_costs(sc: &Scenario, asm: &Assembled, tx: &MintedTx) -> Option<Vec<
         out.push(RefStep {
             tag: tag_name(&r.tag),
             index: r.index,
-            ok: res.result().is_ok(),
+            // the ledger's verdict, stated here independently of `EvalResult::failed`: no error, and
+            // for Plutus V3 the result must be the unit constant
+            ok: match res.result() {
+                Err(_) => false,
+                Ok(t) => s.version != 3 || matches!(&t, uplc::ast::Term::Constant(c) if matches!(c.as_ref(), uplc::ast::Constant::Unit)),
+            },
             cpu: cost.cpu,
             mem: cost.mem,
         });
@@ -1191,6 +1208,7 @@ fn gen_scenario(rng: &mut Rng) -> Scenario {
         };
         let behaviour = match rng.below(10) {
             0 => Behaviour::Fail,
+            1 if rng.chance(1, 2) => Behaviour::ReturnFalse,
             1..=3 => Behaviour::Ok,
             4..=7 => Behaviour::Burn(rng.range(1, 400) as u32),
             8 if version >= 2 => Behaviour::HashCtx,
@@ -1211,6 +1229,7 @@ fn gen_scenario(rng: &mut Rng) -> Scenario {
                 0
             },
             purpose,
+            on_spent_input: false,
             by_reference: !with_v1 && rng.chance(1, 4),
             unique: rng.below(1 << 30) as u32 + i as u32,
         });
@@ -1240,6 +1259,9 @@ fn gen_scenario(rng: &mut Rng) -> Scenario {
         7 => BudgetChoice::MaxSingle,
         _ => BudgetChoice::Ample,
     };
+    for s in scripts.iter_mut() {
+        s.on_spent_input = s.by_reference && rng.chance(1, 3);
+    }
     let all_v3 = scripts.iter().all(|s| s.version == 3);
     Scenario {
         scripts,
@@ -1283,7 +1305,7 @@ fn report(ctx: &mut RunCtx, sc: &Scenario, violations: &[(String, String)], mini
             format!(
                 "transaction with {} script(s) {:?}, cost models {}, protocol {:?}, budget {:?}, drop {:?}, phase-one {}{}: {detail}",
                 sc.scripts.len(),
-                sc.scripts.iter().map(|s| format!("v{} {:?} {:?}{}", s.version, s.purpose, s.behaviour, if s.by_reference { " by-ref" } else { "" })).collect::<Vec<_>>(),
+                sc.scripts.iter().map(|s| format!("v{} {:?} {:?}{}", s.version, s.purpose, s.behaviour, if s.by_reference && s.on_spent_input { " by-ref-on-spent-input" } else if s.by_reference { " by-ref" } else { "" })).collect::<Vec<_>>(),
                 if sc.with_cost_models { "supplied" } else { "absent" },
                 sc.protocol,
                 sc.budget,
